@@ -68,6 +68,8 @@ def canonical_case(d: Any) -> Optional[tuple[str, str, str]]:
             return key, "undefined", ""  # astronomically large / small: a 15-digit float in an
             # exponent makes the comparison meaningless
         if not values.close(got, want, tol, 1e-40):
+            if not printspace.float_conditioned(e, rep, want, tol):
+                return key, "undefined", ""
             return key, "checked", (f"{text!r} parses to {mpmath.nstr(got, 15)} but the expression "
                 f"{short(e, 80)} is {mpmath.nstr(want, 15)} at {pt}")
     return key, "checked", ""
